@@ -44,9 +44,15 @@ def _effective(policy_name: str, msg_device):
 
 
 def rule_pred(ctx):
+    pred_table(ctx, "C05.PRED")
+
+
+def pred_table(ctx, RULE, only_tags=None):
     p = ctx.p
     classes = concrete_message_classes(p)
-    ctx.floor("C05.PRED", "concrete message classes", len(classes), 21)
+    ctx.floor(RULE, "concrete message classes", len(classes), 21)
+    if only_tags is not None:
+        classes = [c for c in classes if lower_first(c.name) in only_tags]
     rows = 0
     bad_rows = 0
     f = router_cls(p).find_method("process_message")
@@ -78,7 +84,7 @@ def rule_pred(ctx):
                             row = f"{tag} device={mdev} policy(client0)={pn0} policy(client1)={pn1} sender={sender_kind}"
                             if pa.outcome != "return":
                                 bad_rows += 1
-                                ctx.violated("C05.PRED", f.short, f"routing raises for row [{row}]: {show(pa.value) if pa.value is not None else ''}", fi=f, text=f"raise:{tag}:{sender_kind}", witness=row)
+                                ctx.violated(RULE, f.short, f"routing raises for row [{row}]: {show(pa.value) if pa.value is not None else ''}", fi=f, text=f"raise:{tag}:{sender_kind}", witness=row)
                                 continue
                             got = {}
                             for recv, arg, ev in deliveries(pa, "message_from_device"):
@@ -91,19 +97,19 @@ def rule_pred(ctx):
                                 n = len(got.get(cname, []))
                                 if expect and n != 1:
                                     bad_rows += 1
-                                    ctx.violated("C05.PRED", f.short, f"<{tag}> ({'BLOB payload' if is_blob else 'non-BLOB'}) is delivered {n} times to a client with policy {pn} (expected once)", fi=f, text=f"miss:{'blob' if is_blob else 'nonblob'}:{pn}:{n}", witness=row)
+                                    ctx.violated(RULE, f.short, f"<{tag}> ({'BLOB payload' if is_blob else 'non-BLOB'}) is delivered {n} times to a client with policy {pn} (expected once)", fi=f, text=f"miss:{'blob' if is_blob else 'nonblob'}:{pn}:{n}", witness=row)
                                 elif not expect and n != 0:
                                     bad_rows += 1
                                     why = "it is the sender" if sender_kind == cname else (f"policy {pn} excludes it" if from_device else "the message is not device-originated")
-                                    ctx.violated("C05.PRED", f.short, f"<{tag}> ({'BLOB payload' if is_blob else 'non-BLOB'}) is delivered to a client although {why}", fi=f, text=f"leak:{'blob' if is_blob else 'nonblob'}:{pn}:{'sender' if sender_kind == cname else 'other'}:{from_device}", witness=row)
+                                    ctx.violated(RULE, f.short, f"<{tag}> ({'BLOB payload' if is_blob else 'non-BLOB'}) is delivered to a client although {why}", fi=f, text=f"leak:{'blob' if is_blob else 'nonblob'}:{pn}:{'sender' if sender_kind == cname else 'other'}:{from_device}", witness=row)
                                 elif expect and got[cname][0] is not pa.world.msg:
                                     bad_rows += 1
-                                    ctx.violated("C05.PRED", f.short, "the delivered object is not the message itself", fi=f, text="altered-message", witness=row)
+                                    ctx.violated(RULE, f.short, "the delivered object is not the message itself", fi=f, text="altered-message", witness=row)
                         if rows % 400 == 1:
-                            ctx.sample({"rule": "C05.PRED", "row": f"{tag} device={mdev} p0={pn0} p1={pn1} sender={sender_kind}", "path": path_text(paths[0], 8)})
-    ctx.counters["C05.PRED:truth-table rows"] = rows
+                            ctx.sample({"rule": RULE, "row": f"{tag} device={mdev} p0={pn0} p1={pn1} sender={sender_kind}", "path": path_text(paths[0], 8)})
+    ctx.counters[f"{RULE}:truth-table rows"] = rows
     if bad_rows == 0:
-        ctx.holds("C05.PRED", f.short, f"{rows} rows (class x policy(client0) x policy(client1) x sender x device) agree with the delivery oracle", fi=f)
+        ctx.holds(RULE, f.short, f"{rows} rows (class x policy(client0) x policy(client1) x sender x device) agree with the delivery oracle", fi=f)
     ctx.exhaustive_domains.append("21 message classes x 6x6 policy configurations x 3 senders x device in {A, none}")
 
 
